@@ -160,14 +160,17 @@ func vh_C09_FullAndClosed() {
 			vfAssert("full-error", err == ErrWorkerPoolJobQueueIsFull)
 		}
 	}
-	errT := p.ScheduleWithTimeout(l.job(50, false, false), 90*time.Millisecond)
+	// timeouts of every shape: positive, zero, negative - a refused job is reported as refused, never as accepted
+	timeout := []time.Duration{90 * time.Millisecond, 0, -time.Second}[vfChoose("timeout-shape", 3)]
+	errT := p.ScheduleWithTimeout(l.job(50, false, false), timeout)
 	vfAssert("timeout-error", errT == ErrWorkerPoolScheduleTimeout)
 	inv := NewDefaultInvokable[int](p, func(v int) { l.job(60+v, false, false)() })
-	vfAssert("invoke-timeout-error", inv.InvokeWithTimeout(1, 90*time.Millisecond) == ErrWorkerPoolScheduleTimeout)
+	vfAssert("invoke-timeout-error", inv.InvokeWithTimeout(1, timeout) == ErrWorkerPoolScheduleTimeout)
 	p.Close()
 	vfAssert("isclosed", p.IsClosed())
 	vfAssert("closed-error", p.Schedule(l.job(70, false, false)) == ErrWorkerPoolIsClosed)
-	vfAssert("closed-error-timeout", p.ScheduleWithTimeout(l.job(71, false, false), 90*time.Millisecond) == ErrWorkerPoolIsClosed)
+	vfAssert("closed-error-timeout", p.ScheduleWithTimeout(l.job(71, false, false), timeout) == ErrWorkerPoolIsClosed)
+	vfAssert("closed-error-timeout", inv.InvokeWithTimeout(2, timeout) == ErrWorkerPoolIsClosed)
 	vfQuiesce()
 	vfAssert("nothing-ran-without-workers", len(l.started) == 0)
 	vfReach("end")
